@@ -209,20 +209,35 @@ def requestURIPath (u : URLPath) : Str :=
   let r := escapedPath u
   if r = [] then [47] else r
 
-/-- The way of the request path: server parse (`setPath`) → `dispatcher.ServeHTTP` copies `Path` and `RawPath` into
-    `location` → `normalizeLocation` re-parses `location.String()` → `UpgradeAwareHandler.ServeHTTP` trailing-slash rule
-    (`req.URL` is `location`) → director `joinURLPath(target, loc)` with an empty target path → `RequestURI()` written
-    by the transport. `none`: the server itself refuses the target (400). -/
+/-- `valid` of `escapeInvalidPathBytes` (dispatcher.go, since 85b204e): letters, digits and the punctuation regenerated from
+    the source (`KG.Gen.C04.validPathPunct`) — the bytes net/url accepts in `URL.RawPath` -/
+def pathByteValid (c : UInt8) : Bool := isAlnum c || memB c Gen.C04.validPathPunct
+
+/-- `escapeInvalidPathBytes`: percent-encode exactly the bytes net/url rejects in `RawPath`, leave everything else —
+    existing escapes included — alone -/
+def escapeInvalidPathBytes : Str → Str
+  | [] => []
+  | c :: rest =>
+    if pathByteValid c then c :: escapeInvalidPathBytes rest
+    else 37 :: upperhex (c >>> 4) :: upperhex (c &&& 15) :: escapeInvalidPathBytes rest
+
+/-- From the `location` the dispatcher built to the request target the transport writes: `normalizeLocation` re-parses
+    `location.String()` → `UpgradeAwareHandler.ServeHTTP` trailing-slash rule (`req.URL` is `location`) → director
+    `joinURLPath(target, loc)` with an empty target path → `RequestURI()`. -/
+def pathFromLocation (location : URLPath) : Option Str :=
+  match setPath (locationStringPath location) with
+  | none => none
+  | some h =>
+    let loc : URLPath :=
+      ⟨if ¬ hasSuffixSlash h.path ∧ hasSuffixSlash location.path then h.path ++ [47] else h.path, h.rawPath⟩
+    some (requestURIPath (joinURLPath ⟨[], []⟩ loc))
+
+/-- The way of the request path: server parse (`setPath`) → `dispatcher.ServeHTTP` copies `Path` and
+    `escapeInvalidPathBytes(RawPath)` into `location` → `pathFromLocation`. `none`: the server itself refuses the target (400). -/
 def pathPipeline (p : Str) : Option Str :=
   match setPath p with
   | none => none
-  | some location =>
-    match setPath (locationStringPath location) with
-    | none => none
-    | some h =>
-      let loc : URLPath :=
-        ⟨if ¬ hasSuffixSlash h.path ∧ hasSuffixSlash location.path then h.path ++ [47] else h.path, h.rawPath⟩
-      some (requestURIPath (joinURLPath ⟨[], []⟩ loc))
+  | some u => pathFromLocation ⟨u.path, escapeInvalidPathBytes u.rawPath⟩
 
 /-! ### query -/
 /-- one `key[=value]` segment of `parseQuery`; `none` = skipped (empty, contains `;`, bad escape) -/
@@ -503,7 +518,6 @@ deriving DecidableEq, Repr
 inductive Outcome
   | notProxied                          -- handed to the control-plane handler
   | terminated (a : Answer)             -- answered by the gateway with a Status
-  | plainError (code : Nat)             -- answered with `responsewriters.InternalError`: text/plain, not a Status
   | forward                             -- handed to the proxy handler
 deriving DecidableEq, Repr
 
@@ -536,9 +550,10 @@ def withUpstreamInfo (s : Scenario) (next : Outcome) : Outcome :=
   else if s.denyAll then .terminated (terminateWithError (newTooManyRequests 0))
   else next
 
-/-- `WithRequestInfo` (k8s.io/apiserver, aliased by the gateway's filters package): a resolver error is answered with
-    `responsewriters.InternalError` -/
-def withRequestInfo (s : Scenario) (next : Outcome) : Outcome := if !s.requestInfoOK then .plainError 500 else next
+/-- `WithRequestInfo` (the gateway's own filter since bd02b39): a resolver error is answered with a Status through
+    `responsewriters.ErrorNegotiated(apierrors.NewInternalError(…))`, like every other request the gateway terminates -/
+def withRequestInfo (s : Scenario) (next : Outcome) : Outcome :=
+  if !s.requestInfoOK then .terminated (errorNegotiated newInternalError none) else next
 
 /-- the chain in the order of `buildProxyHandlerChainFunc` (outermost first) -/
 def serve (s : Scenario) : Outcome :=
@@ -598,6 +613,11 @@ def expectedUpstreamInfoSteps : List Gen.C04.Ev := [
   .term "NewServiceUnavailable" "response.TerminationReasonClusterNotBeingProxied", .ret,
   .denyAllGate,
   .term "NewTooManyRequests(0)" "response.TerminationReasonCircuitBreaker", .ret,
+  .forward]
+
+/-- the WithRequestInfo skeleton the model `withRequestInfo` was written against -/
+def expectedRequestInfoSteps : List Gen.C04.Ev := [
+  .term "NewInternalError" "ErrorNegotiated", .ret,
   .forward]
 
 end KG.Model.Forward
